@@ -668,7 +668,35 @@ func (b *bgen) injectPlus(rootDefs, paths M, aux map[string]M) (mustFail bool, w
 		paths[fmt.Sprintf("/plus/%d", len(paths))] = M{g.pick(allMethods): resp(schema)}
 	}
 	for i, k := 0, 1+g.n(2); i < k; i++ {
-		switch g.n(7) {
+		switch g.n(9) {
+		case 7:
+			// a path-level parameter that is not in: body yet carries a schema (loadable, invalid Swagger) whose $ref cannot
+			// be resolved: Flatten must not report success
+			r := g.pick([]string{"#/definitions/plusMissing", "aux/missing.json#/definitions/x"})
+			paths[fmt.Sprintf("/plus/np%d", len(paths))] = M{
+				"parameters": []any{M{"in": g.pick([]string{"formData", "query"}), "name": "f", "type": "string", "schema": M{"$ref": r}}},
+				"get":        M{"operationId": fmt.Sprintf("plusNp%d", len(paths)), "responses": M{"200": M{"description": "ok"}}}}
+			mustFail = true
+			what = append(what, "dangling-in-nonbody-path-parameter")
+		case 8:
+			// an anonymous pointer to a non-schema part of an operation, used from two places (so that it gets named)
+			var ps []string
+			for p := range paths {
+				ps = append(ps, p)
+			}
+			sort.Strings(ps)
+			if len(ps) > 0 {
+				p := ps[g.n(len(ps))]
+				for _, m := range allMethods {
+					if _, ok := paths[p].(M)[m]; ok {
+						ref := M{"$ref": "#/paths/" + jsonPtrEscape(p) + "/" + m + g.pick([]string{"/responses", "/parameters", "/responses/200"})}
+						addPath(ref)
+						addPath(M{"type": "array", "items": ref})
+						break
+					}
+				}
+			}
+			what = append(what, "pointer-to-operation-part-twice")
 		case 0:
 			rootDefs["plusOdd"] = M{"type": "object", "additionalProperties": g.p(0.5), "properties": M{"t": M{"type": "array", "items": []any{M{"type": "string"}, M{"type": "integer"}}, "additionalItems": g.p(0.5)}}}
 			addPath(M{"$ref": g.pick([]string{"#/definitions/plusOdd/additionalProperties", "#/definitions/plusOdd/properties/t/items", "#/definitions/plusOdd/properties/t/additionalItems", "#/definitions/plusOdd/properties/t/items/1"})})
